@@ -590,3 +590,6 @@ func (it *Interp) convert(v Value, from, to types.Type, fn *ssa.Function, pos to
 	}
 	return Top{Why: "conversion " + from.String() + " -> " + to.String()}
 }
+
+// WXor is the bytewise/word xor of the analysis (exported for reference constructions).
+func WXor(a, b *Term, width int) *Term { return wXor(a, b, width) }
